@@ -157,3 +157,18 @@ def sym_float_shim(c, module):
     shim = lambda v=0.0: v if isinstance(v, Sym) else float(v)
     with stubs.patched((module, "float", shim)):
         yield
+
+
+def snapshot(a):
+    """the elements of an argument array before a call (objects in sym mode, floats in concrete mode)"""
+    return [v for v in np.asarray(a, dtype=object).ravel()]
+
+
+def unchanged(a, snap, c):
+    """the callee did not modify its argument: every element is still the value it was given"""
+    now = [v for v in np.asarray(a, dtype=object).ravel()]
+    if len(now) != len(snap):
+        return False
+    if c.mode == "sym":
+        return all_close(now, snap, c)
+    return all(float(u) == float(v) for u, v in zip(now, snap))
